@@ -8,9 +8,14 @@ import Bng.Model.Failover
     down | up                   the health monitor's flag changes (event delivered on a transition only)
     adv <ms>                    the virtual clock advances; everything that becomes due runs, in time order
     cb ok|fail                  what the role-change callback answers from now on
+    cbslow <ms> <down|up|none>  from now on the callback takes <ms>, and the partner's health changes when it starts
+    setpartner                  HealthMonitor.SetPartner: health reset to healthy (announced as partner_up)
     force-failover | force-failback      => ok … | err …
     raceup                      the failover timer fires and loses the race for the mutex against a partner_up
     stale                       that callback finally gets the mutex
+    racedown                    the failback timer fires (on a control-loop tick instant) and loses the race against a
+                                partner_down and the tick's cancellation
+    stale-fb                    that callback finally gets the mutex
   observation:  t=<ms> <role> <state> h=<0|1> i=<n> c=<n> x=<n> f=<n> ev=<name@ms,…|->
 
   One trace operation is a sequence of small model steps (Bng.Failover.step): the clock moves to the next due
@@ -24,10 +29,14 @@ structure St where
   model : Option Failover.State := none
   mon   : Mon := {}
   cbOk  : Bool := true
-  raced : List Nat := []       -- timer instances that fired and have not run yet (delivered by `stale`)
+  raced : List Nat := []       -- failover timer instances that fired and have not run yet (delivered by `stale`)
+  racedFb : List Nat := []     -- failback timer instances likewise (delivered by `stale-fb`)
   drift : Bool := false
   nextTick : Nat := 1000
-  evs   : List (Emit × Nat) := []
+  cbDur : Nat := 0
+  cbAct : String := "none"
+  acts  : List (Nat × String) := []     -- health changes scripted from inside running callbacks: (when, down|up)
+  evs   : List (String × Nat) := []
 
 def showRole : Role → String
   | .standby => "standby" | .active => "active"
@@ -44,15 +53,24 @@ def showEmit : Emit → String
   | .failbackCompleted => "failback_completed"
   | .roleChanged o n => s!"role:{showRole o}>{showRole n}"
   | .callback r ok => s!"cb:{showRole r}:{if ok then "ok" else "fail"}"
+  | .callbackFailed r => s!"cbfailed:{showRole r}"
 
 def showObs (st : St) (m : Failover.State) : String :=
-  let ev := if st.evs.isEmpty then "-" else ",".intercalate (st.evs.map fun (e, t) => s!"{showEmit e}@{t}")
+  let ev := if st.evs.isEmpty then "-" else ",".intercalate (st.evs.map fun (e, t) => s!"{e}@{t}")
   s!"t={m.now} {showRole m.role} {showState m.state} h={if m.healthy then 1 else 0} i={m.initiated} c={m.completed} x={m.canceled} f={m.failbacks} ev={ev}"
 
 /-- run one small step, stamping what it emits -/
 def small (st : St) (m : Failover.State) (op : Op) : St × Failover.State :=
   let (m', es) := Failover.step m op
-  ({ st with evs := st.evs ++ es.map fun e => (e, m'.now) }, m')
+  ({ st with evs := st.evs ++ es.map fun e => (showEmit e, m'.now) }, m')
+
+/-- the role-change callback has just been invoked: what the script makes happen while it runs -/
+def inCallback (st : St) (m : Failover.State) (act : String) : St × Failover.State :=
+  if act == "down" then
+    if m.healthy then small { st with evs := st.evs ++ [("health:down", m.now)] } m .down else (st, m)
+  else if act == "up" then
+    if m.healthy then (st, m) else small { st with evs := st.evs ++ [("health:up", m.now)] } m .up
+  else (st, m)
 
 def minOpt (a : Option Nat) (b : Nat) : Option Nat :=
   match a with
@@ -62,7 +80,7 @@ def minOpt (a : Option Nat) (b : Nat) : Option Nat :=
 /-- index and deadline of the earliest timer that will run by itself -/
 def nextTimer (st : St) (m : Failover.State) : Option (Nat × Nat) :=
   (m.timers.zipIdx).foldl (fun acc (t, i) =>
-    if t.delivered || t.stopped || st.raced.contains i then acc else
+    if t.delivered || t.stopped || st.raced.contains i || st.racedFb.contains i then acc else
     match acc with
     | some (_, d) => if t.deadline < d then some (i, t.deadline) else acc
     | none => some (i, t.deadline)) none
@@ -70,8 +88,8 @@ def nextTimer (st : St) (m : Failover.State) : Option (Nat × Nat) :=
 def nextExec (m : Failover.State) : Option (Nat × Nat) :=
   (m.execs.zipIdx).foldl (fun acc (e, j) =>
     match acc with
-    | some (_, w) => if e.wake < w then some (j, e.wake) else acc
-    | none => some (j, e.wake)) none
+    | some (_, w) => if e.due < w then some (j, e.due) else acc
+    | none => some (j, e.due)) none
 
 /-- run everything that is due up to `target`, in time order; at equal times: timer callbacks, then sleepers,
     then the control-loop tick.  `strict`: the real clock stands 1 ns before `target` (see `raceup`), so timers,
@@ -84,9 +102,14 @@ def runTo (fuel : Nat) (st : St) (m : Failover.State) (target : Nat) (strict : B
     let dueT := fun (t : Nat) => if strict then decide (t < target) else decide (t ≤ target)
     let cT := (nextTimer st m).filter fun (_, d) => dueT d
     let cE := (nextExec m).filter fun (j, w) =>
-      dueT w || (decide (w = target) && (match m.execs[j]? with | some e => decide (e.firedAt = target) | none => false))
+      dueT w || (decide (w = target) && (match m.execs[j]? with
+        | some e => if e.stage = .sleeping then decide (e.firedAt = target) else decide (st.cbDur = 0)
+        | none => false))
     let cK := if dueT st.nextTick then some st.nextTick else none
-    let te := [cT.map (·.2), cE.map (·.2), cK].foldl (fun acc c => match acc, c with
+    let cA := (st.acts.foldl (fun acc (t, _) => match acc with
+      | some a => some (min a t)
+      | none => some t) (none : Option Nat)).filter dueT
+    let te := [cT.map (·.2), cE.map (·.2), cK, cA].foldl (fun acc c => match acc, c with
       | some a, some b => some (min a b)
       | none, c => c
       | a, none => a) none
@@ -94,6 +117,14 @@ def runTo (fuel : Nat) (st : St) (m : Failover.State) (target : Nat) (strict : B
     | none => small st m (.advance (target - m.now))
     | some te =>
       let (st, m) := small st m (.advance (te - m.now))
+      if cA = some te then
+        match st.acts.find? (fun (t, _) => t = te) with
+        | some (_, act) =>
+          let st := { st with acts := st.acts.filter fun (t, _) => t ≠ te }
+          let (st, m) := inCallback st m act
+          runTo fuel st m target strict
+        | none => runTo fuel st m target strict
+      else
       match cT, cE with
       | some (i, d), _ =>
         if d = te then let (st, m) := small st m (.fire i); runTo fuel st m target strict
@@ -104,7 +135,19 @@ where
       (cE : Option (Nat × Nat)) : St × Failover.State :=
     match cE with
     | some (j, w) =>
-      if w = te then let (st, m) := small st m (.wake j st.cbOk); runTo fuel st m target strict
+      if w = te then
+        match m.execs[j]? with
+        | some e =>
+          if e.stage = .sleeping then
+            let (st, m') := small st m (.check j st.cbOk (if st.cbAct != "none" then max st.cbDur 1 else st.cbDur))
+            -- was the callback invoked (the execution is still there, now in its calling stage)?
+            let invoked := m'.execs.length = m.execs.length
+            -- the script's health change happens 1 ms into the callback (never on a tick instant)
+            let st := if invoked && st.cbAct != "none" then { st with acts := st.acts ++ [(m'.now + 1, st.cbAct)] } else st
+            runTo fuel st m' target strict
+          else
+            let (st, m) := small st m (.commit j); runTo fuel st m target strict
+        | none => runTo fuel st m target strict
       else tickNow fuel st m target strict
     | none => tickNow fuel st m target strict
   tickNow (fuel : Nat) (st : St) (m : Failover.State) (target : Nat) (strict : Bool) : St × Failover.State :=
@@ -118,11 +161,15 @@ def parseEv (s : String) : Option ObsEv :=
     | none => none
     | some t =>
       let k : EvKind :=
-        if name == "completed:auto" then .completedAuto
+        if name == "canceled" then .canceled
+        else if name == "completed:auto" then .completedAuto
         else if name == "completed:forced" then .completedForced
         else match name.splitOn ":" with
           | ["cb", r, "ok"] => .cbOk r
-          | ["cb", _, "fail"] => .cbFail
+          | ["cb", r, "fail"] => .cbFail r
+          | ["cbfailed", _] => .cbFailed
+          | ["health", "down"] => .health false
+          | ["health", "up"] => .health true
           | ["role", ch] => (match ch.splitOn ">" with
               | [o, n] => .roleChange o n
               | _ => .other)
@@ -160,9 +207,9 @@ def parseRole : String → Option Role
   | "active" => some .active
   | _ => none
 
-def currentFailoverTimer (m : Failover.State) : Option (Nat × Nat) :=
+def currentTimer (k : TKind) (m : Failover.State) : Option (Nat × Nat) :=
   (m.timers.zipIdx).foldl (fun acc (t, i) =>
-    if t.kind = .failover ∧ t.gen = m.gen ∧ !t.delivered ∧ !t.stopped then some (i, t.deadline) else acc) none
+    if t.kind = k ∧ t.gen = m.gen ∧ !t.delivered ∧ !t.stopped then some (i, t.deadline) else acc) none
 
 def step (st : St) (toks : List String) (impl : String) : St × LineResult :=
   match toks with
@@ -170,7 +217,7 @@ def step (st : St) (toks : List String) (impl : String) : St × LineResult :=
     match parseRole role, d.toNat?, fb.toNat?, g.toNat? with
     | some role, some d, some fb, some g =>
       let cfg : Cfg := { delay := d, fbDelay := fb, grace := g, failbackEnabled := e == "1", original := role }
-      let st : St := { mon := { delay := d, grace := g } }
+      let st : St := { mon := { delay := d, grace := g, failbackEnabled := e == "1" } }
       finish st (Failover.init cfg) "" .new impl
     | _, _, _, _ => (st, { modelObs := "badop" })
   | _ =>
@@ -194,6 +241,14 @@ def step (st : St) (toks : List String) (impl : String) : St × LineResult :=
           finish { st with drift := false } m "" .advance impl
         | none => (st, { modelObs := "badop" })
       | ["cb", r] => finish { st with cbOk := r == "ok" } m "" .other impl
+      | ["cbslow", n, act] =>
+        match n.toNat? with
+        | some n => finish { st with cbDur := n, cbAct := act, mon := { st.mon with slack := max st.mon.slack n } } m "" .other impl
+        | none => (st, { modelObs := "badop" })
+      | ["setpartner"] =>
+        let (st, m) := small st m .up
+        let (st, m) := runTo F st m m.now st.drift
+        finish st m "" .up impl
       | ["force-failover"] =>
         let ok := (Failover.forceFailover m).2.1
         let (st, m) := small st m .forceFailover
@@ -205,7 +260,7 @@ def step (st : St) (toks : List String) (impl : String) : St × LineResult :=
         finish st m (if ok then "ok " else "err ") .forceFailback impl
       | ["raceup"] =>
         if m.state ≠ .pending ∨ st.drift then (st, { modelObs := "none" }) else
-        match currentFailoverTimer m with
+        match currentTimer .failover m with
         | some (i, d) =>
           if d ≤ m.now then (st, { modelObs := "none" }) else
           let (st, m) := runTo F st m d true
@@ -214,6 +269,25 @@ def step (st : St) (toks : List String) (impl : String) : St × LineResult :=
           let (st, m) := runTo F st m m.now true
           finish st m "" .up impl
         | none => (st, { modelObs := "none" })
+      | ["racedown"] =>
+        if m.state ≠ .failbackPending ∨ st.drift then (st, { modelObs := "none" }) else
+        match currentTimer .failback m with
+        | some (i, d) =>
+          if d ≤ m.now ∨ d % 1000 ≠ 0 then (st, { modelObs := "none" }) else
+          let (st, m) := runTo F st m d true
+          let st := { st with racedFb := st.racedFb ++ [i], drift := true }
+          let (st, m) := small st m .down
+          let (st, m) := small st m .tick
+          let (st, m) := runTo F st m m.now true
+          finish st m "" .down impl
+        | none => (st, { modelObs := "none" })
+      | ["stale-fb"] =>
+        match st.racedFb with
+        | [] => (st, { modelObs := "none" })
+        | i :: rest =>
+          let (st, m) := small { st with racedFb := rest } m (.fire i)
+          let (st, m) := runTo F st m m.now (st.drift)
+          finish st m "" .other impl
       | ["stale"] =>
         match st.raced with
         | [] => (st, { modelObs := "none" })
